@@ -1022,6 +1022,19 @@ def w_misc(case, led):
                 led.check(ok, "post:Quantity.as_unit:round_trip", "Quantity.as_unit",
                           f"{v} {u} -> {q2.value} {q2.unit} -> {q2.as_au()} a.u. (direct {au}); back {q2.as_unit(u).value}", key + ("unit", u2), dict(fields, to=u2),
                           dict(rep, to=u2), v != 0 and u2.lower() != u.lower())
+            # arithmetic of quantities (the builders receive expressions like -Quantity(100, "meV") or 2 * J): the value in atomic units follows the arithmetic
+            other = Quantity(0.37 * (1 + abs(v)), units[(units.index(u) + 1) % len(units)])
+            oau = other.as_au()
+            tol = 1e-12 * (abs(au) + abs(oau)) + 1e-300
+            for opn, got, want in (("__neg__", lambda: -q, -au), ("__add__", lambda: q + other, au + oau), ("__sub__", lambda: q - other, au - oau),
+                                   ("__mul__", lambda: q * 2.5, au * 2.5), ("__rmul__", lambda: -3 * q, -3 * au), ("__truediv__", lambda: q / 4.0, au / 4.0),
+                                   ("__neg__ twice", lambda: -(-q), au)):
+                r_, e_ = quiet(got)
+                led.check(e_ is None and isinstance(r_, Quantity) and abs(r_.as_au() - want) <= tol, f"post:Quantity.{opn.split()[0]}:value_in_atomic_units", f"Quantity.{opn.split()[0]}",
+                          f"{opn} of {v} {u}: {getattr(r_, 'value', r_)!r} {getattr(r_, 'unit', '')} = {r_.as_au() if e_ is None and isinstance(r_, Quantity) else e_!r} a.u., expected {want}",
+                          key + ("arith", opn), dict(fields, op=opn), dict(rep, op=opn), v != 0)
+            led.check((q == Quantity(au)) and not (q != Quantity(au)) and ((q == 0) == (v == 0)), "post:Quantity.__eq__:by_value_in_atomic_units", "Quantity.__eq__",
+                      f"{v} {u} compared with the same value in a.u. / with 0", key + ("eq",), fields, rep, v != 0)
             beta = q.to_beta()
             if v == 0:
                 led.check(beta == float("inf"), "post:Quantity.to_beta:zero_temperature", "Quantity.to_beta", f"to_beta of 0 is {beta}", key + ("beta",), fields, rep)
